@@ -152,6 +152,14 @@ func runC01(c *core.Ctx) {
 	evals += int64(len(cases)) * 2
 	c.Count("truncations_of_generated_documents", int64(len(cases)))
 	c.Programs = int64(nDocs)
+	// every prefix of strings made of escapes (look-ahead at the end of input)
+	esc := EscapeTruncations()
+	c.Pool.ParFor(len(esc), func(w, i int) {
+		c.CheckCase(w, "lex", thm, esc[i])
+		check(w, esc[i], 0)
+	})
+	evals += int64(len(esc)) * 3
+	c.Count("escape_truncations", int64(len(esc)))
 	// random unicode / invalid utf-8
 	rnd := make([][]byte, nRand)
 	for i := range rnd {
